@@ -379,7 +379,7 @@ Proof.
     destruct (fo_verdict cat_in isw isew n s al) as [v| | |] eqn:Ev; cbn [bind] in H; try discriminate.
     destruct (verdict_sound cat_in isw isew sid e sets Henv n s (proj1 Hn) (proj1 Hs) (proj2 Hn) (proj2 Hs) Hoeq Hltr al v Ev) as [Hv1 Hv2].
     destruct (v =? 1) eqn:E1.
-    { left. apply dead_Dc. apply Hv1. lia. }
+    { left. apply dead_Dc. apply dead_nq_at. apply Hv1. lia. }
     destruct (v =? 0) eqn:E0; [discriminate|].
     destruct (negb iter) eqn:Ei; [discriminate|].
     assert (Hit : iter = true) by (destruct iter; [reflexivity|discriminate]).
@@ -405,6 +405,85 @@ Proof.
         rewrite (HupD K HK a Ha Hp). reflexivity.
       * right. split; [exact Hit|]. split; [exact Hse|]. intros K HK a Ha.
         apply kb_nonempty; [apply node_ok_okp; exact Hs | exact Ha | apply Htot | apply HupT; exact HK].
+Qed.
+
+(* ---- without iterateNullableSubsequent (FindLastExpressionInLoopForAutoAtomic's question, the lazy loops):
+   true means the successor has no result wherever the next character passes the loop's test, from ANY state *)
+Notation NQ := (NQ cat_in e).
+
+Lemma descend_dead n : forall sub c s ctx1, fo_descend sub c = (s, ctx1) -> node_ok sub ->
+  node_ok s /\ ((forall a, NQ n a -> den (tr s) a = []) -> forall a, NQ n a -> den (tr sub) a = []).
+Proof.
+  induction sub as [t o ch m nn str st kids IHk] using rnode_ind'. intros c s ctx1 Hd Hok.
+  cbn [fo_descend] in Hd.
+  destruct kids as [|k ks]; [injection Hd as <- <-; split; [exact Hok|auto]|].
+  set (sub := RN t o ch m nn str st (k :: ks)) in *.
+  destruct ((t =? T_Concatenate) || (t =? T_Capture) || (t =? T_Atomic) || (t =? T_PosLook) && negb (useRTL o)
+            || ((t =? T_Loop) || (t =? T_Lazyloop)) && (0 <? m)) eqn:Econd;
+    [|injection Hd as <- <-; split; [exact Hok|auto]].
+  inversion IHk as [|? ? IHk0 _]; subst.
+  assert (Hokk : node_ok k) by (apply (node_ok_kid sub); [exact Hok | left; reflexivity]).
+  destruct (IHk0 _ s ctx1 Hd Hokk) as (Hs & HD).
+  split; [exact Hs|]. intros Hdead a Ha. specialize (HD Hdead a Ha).
+  pose proof (fo_wf_arity sub (proj1 Hok)) as Har. cbn [n_t n_kids sub length] in Har.
+  unfold T_Concatenate, T_Capture, T_Atomic, T_PosLook, T_Loop, T_Lazyloop in Econd.
+  destruct (t =? 25) eqn:E25.
+  { rewrite (tr_concat sid sub) by (unfold sub; cbn [n_t]; unfold T_Concatenate; lia).
+    unfold sub. cbn [n_o n_kids map]. rewrite fd_den_concat. cbn [FinalOptDen.den_seq]. rewrite HD. reflexivity. }
+  assert (Hks : ks = []).
+  { assert (t = 28 \/ t = 32 \/ t = 30 \/ t = 26 \/ t = 27) as Ht by lia.
+    destruct Ht as [-> | [-> | [-> | [-> | -> ]]]]; cbn in Har; destruct ks; try reflexivity; discriminate. }
+  subst ks.
+  assert (t = 28 \/ t = 32 \/ t = 30 \/ t = 26 \/ t = 27) as Ht by lia.
+  destruct Ht as [Et|[Et|[Et|[Et|Et]]]].
+  - rewrite (tr_capture sid sub k) by (unfold sub; cbn [n_t n_kids]; unfold T_Capture; auto). rewrite fd_den_capture, HD. reflexivity.
+  - rewrite (tr_atomic sid sub k) by (unfold sub; cbn [n_t n_kids]; unfold T_Atomic; auto). rewrite fd_den_atomic, HD. reflexivity.
+  - rewrite (tr_poslook sid sub k) by (unfold sub; cbn [n_t n_kids]; unfold T_PosLook; auto). rewrite fd_den_poslook, HD. reflexivity.
+  - rewrite (tr_loop sid sub k) by (unfold sub; cbn [n_t n_kids]; unfold T_Loop; auto). rewrite fd_den_loop. cbn [n_m sub].
+    replace (m =? 0) with false by lia. rewrite HD. reflexivity.
+  - rewrite (tr_lazyloop sid sub k) by (unfold sub; cbn [n_t n_kids]; unfold T_Lazyloop; auto). rewrite fd_den_loop. cbn [n_m sub].
+    replace (m =? 0) with false by lia. rewrite HD. reflexivity.
+Qed.
+
+Theorem cbma_noiter_dead : forall f n sub c al seen,
+  fo_cbma cat_in isw isew f strict n sub c false al seen = Ok true -> node_ok n -> node_ok sub ->
+  forall a, NQ n a -> den (tr sub) a = [].
+Proof.
+  induction f as [|f IHf]; intros n sub c al seen H Hn Hsub; [discriminate|].
+  rewrite fo_cbma_S in H. destruct (fo_descend sub c) as [s ctx1] eqn:Ed.
+  destruct (descend_dead n sub c s ctx1 Ed Hsub) as (Hs & HD).
+  destruct (negb (n_o n =? n_o s)) eqn:Eo; [discriminate|].
+  destruct (useRTL (n_o n)) eqn:Er; [discriminate|].
+  assert (Hoeq : n_o n = n_o s) by lia.
+  assert (Hltr : ltr (n_o n)) by exact Er.
+  cbv zeta in H. apply HD. clear HD.
+  destruct ((n_t s =? T_Alternate) || (n_t s =? T_ExprCond) && (zlen (n_kids s) =? 3)) eqn:Ealt.
+  - assert (Hbr : forall ks, Forall node_ok ks ->
+              fo_branches (fun k ks' => fo_cbma cat_in isw isew f strict n k (mkF (n_t s) false true ks' :: ctx1) false false seen) ks = Ok true ->
+              forall k, In k ks -> forall a, NQ n a -> den (tr k) a = []).
+    { induction ks as [|k ks IHks]; intros Hks Hb k0 Hin; [destruct Hin|].
+      inversion Hks as [|? ? Hk Hks']; subst. cbn [fo_branches] in Hb.
+      destruct (fo_cbma cat_in isw isew f strict n k (mkF (n_t s) false true ks :: ctx1) false false seen) as [b| | |] eqn:Ek;
+        cbn [bind] in Hb; try discriminate.
+      destruct b; [|discriminate]. destruct Hin as [<-|Hin]; [exact (IHf _ _ _ _ _ Ek Hn Hk) | exact (IHks Hks' Hb k0 Hin)]. }
+    assert (Hkids : Forall node_ok (n_kids s)).
+    { rewrite Forall_forall. intros k Hk. exact (node_ok_kid s k Hs Hk). }
+    specialize (Hbr _ Hkids H). intros a Ha.
+    destruct (n_t s =? T_Alternate) eqn:Ea.
+    + rewrite (tr_alt sid s) by (unfold T_Alternate in *; lia). rewrite fd_den_alt, flat_map_concat_map, map_map, <- flat_map_concat_map.
+      apply flat_map_all_nil. intros k Hk. exact (Hbr k Hk a Ha).
+    + assert (Et : n_t s = T_ExprCond) by (unfold T_Alternate, T_ExprCond in *; lia).
+      assert (Hk3 : exists c0 y0 n0, n_kids s = [c0; y0; n0]).
+      { assert (zlen (n_kids s) = 3) as Hl by lia. unfold zlen in Hl.
+        destruct (n_kids s) as [|c0 [|y0 [|n0 [|? ?]]]]; cbn [length] in Hl; try lia. exists c0, y0, n0. reflexivity. }
+      destruct Hk3 as (c0 & y0 & n0 & Ek). rewrite Ek in Hbr.
+      rewrite (tr_expr_cond sid s c0 y0 n0 Et Ek), fd_den_expr_cond.
+      rewrite (Hbr c0 (or_introl eq_refl) a Ha). cbn [den_opt].
+      exact (Hbr n0 (or_intror (or_intror (or_introl eq_refl))) a Ha).
+  - destruct (fo_verdict cat_in isw isew n s al) as [v| | |] eqn:Ev; cbn [bind] in H; try discriminate.
+    destruct (verdict_sound cat_in isw isew sid e sets Henv n s (proj1 Hn) (proj1 Hs) (proj2 Hn) (proj2 Hs) Hoeq Hltr al v Ev) as [Hv1 _].
+    destruct (v =? 1) eqn:E1; [apply Hv1; lia|].
+    destruct (v =? 0) eqn:E0; [discriminate|]. cbn [negb] in H. discriminate.
 Qed.
 
 End Walk.
